@@ -24,7 +24,8 @@ func parseTx(tx string) (key, val string, ok bool) {
 	if i < 0 {
 		return "", "", false
 	}
-	key, val = tx[:i], tx[i+1:]
+	// white space around the key and around the value is not part of them
+	key, val = strings.TrimSpace(tx[:i]), strings.TrimSpace(tx[i+1:])
 	if key == "" {
 		return "", "", false
 	}
